@@ -159,21 +159,29 @@ func isErrorType(t types.Type) bool {
 // provablyNonNilError: v is a freshly built error (interface made from a non-nil pointer / call of a
 // constructor returning a concrete pointer type)
 func provablyNonNilError(v ssa.Value) bool {
-	for _, s := range allSources(v) {
-		switch x := s.(type) {
-		case *ssa.MakeInterface:
-			// interface made of a concrete value: non-nil interface
-			_ = x
-			continue
-		case *ssa.Const:
-			if x.IsNil() {
-				return false
-			}
-		default:
-			return false
+	seen := map[ssa.Value]bool{}
+	var walk func(v ssa.Value) bool
+	walk = func(v ssa.Value) bool {
+		if seen[v] {
+			return true
 		}
+		seen[v] = true
+		switch x := v.(type) {
+		case *ssa.MakeInterface:
+			return true // an interface made of a concrete value is never the nil interface
+		case *ssa.Phi:
+			for _, e := range x.Edges {
+				if !walk(e) {
+					return false
+				}
+			}
+			return true
+		case *ssa.ChangeInterface:
+			return walk(x.X)
+		}
+		return false
 	}
-	return true
+	return walk(v)
 }
 
 // ---------- intraprocedural taint flow
